@@ -397,6 +397,12 @@ package cisco
 // move) is removed from the lookup map: it must not be matched again by a second
 // identical added line (only remarks can be identical), which would shift the
 // position bookkeeping without a command (structural guard).
+// the lists of lines to add and to delete are filled while the diff is read
+// (by diffASAACLs itself and by equalizeACLs, closure 5) and are not touched
+// by the closures that plan adds, deletes and moves: the deletes that follow
+// are then issued bottom-up over the complete list (structural scan)
+//vc:storesonly[C14,C01] (*State).diffASAACLs del in (*State).diffASAACLs, (*State).diffASAACLs$5
+//vc:storesonly[C14,C01] (*State).diffASAACLs add in (*State).diffASAACLs, (*State).diffASAACLs$5
 //vc:func (*State).diffASAACLs
 //vc:  assert[C01] at "delete(delMap, p)" @deviceLineMovedOnce a != nil
 // (structural, C14: adds and moves are issued first, then the list of pending
